@@ -875,6 +875,9 @@ func (u *Unit) runLoopCut(fr *frame, L *Loop, spec *LoopSpec, entries []edgeStat
 	u.scanEntry = nil
 	head := entrySt.Clone()
 	if ws.all {
+		if roots, ok := u.w.loopCallees(fr.fn, L.Blocks); ok {
+			u.havocRoots, u.havocSelf, u.havocRooted = roots, fr.fn, true
+		}
 		u.havocAll(head, fmt.Sprintf("loop %d: %s", L.Ordinal, ws.why))
 	} else {
 		for _, fam := range sortedKeys(ws.fams) {
